@@ -48,7 +48,10 @@ BOUNDS = {
 }
 OUTSIDE = ('an all-values verdict for the compiled side (machine code): paths that exist only in the C++ (BLAS batching thresholds, '
            'MKL branch) are reached only as far as Python-side path witnesses happen to reach them; sizes above the bounds; '
-           'algorithms built on top of the kernels (DMRG etc.) beyond the listed operation programs')
+           'algorithms built on top of the kernels (DMRG etc.) beyond the listed operation programs; the declared dtype of a result '
+           'Array that has NO stored blocks (nothing else about dtypes is ignored: for every result with stored blocks the declared '
+           'dtype, the dtype of every stored block and the outcome of test_sanity() are compared, as are the dtypes of scalar and '
+           'ndarray results)')
 STUBS = ['symbolic side: QTYPE=object, BLAS contract stub (only used to enumerate the paths of the Python kernels)']
 ASSUMPTIONS = ['witness charges |q| < 2**20 (no int64 wrap-around)', 'scratch rebuild uses the compiler and Cython of /venv (offline)']
 RULE = ('evaluations = (witness, dtype variant) executions whose serialised results from the freshly rebuilt compiled build and from '
@@ -235,6 +238,15 @@ def _un_nd(d):
     return a.reshape(d['shape'])
 
 
+def _sanity(x):
+    """None if x.test_sanity() passes, else the exception class (part of the observable result)"""
+    try:
+        x.test_sanity()
+        return None
+    except Exception as e:  # noqa
+        return type(e).__name__
+
+
 def ser(x):
     """npc objects / arrays / numbers -> JSON-able; used for operands (harness -> workers) and results (workers -> harness)"""
     import tenpy.linalg.np_conserved as npc
@@ -242,7 +254,8 @@ def ser(x):
         order = np.lexsort(x._qdata.T) if len(x._data) > 1 else np.arange(len(x._data))
         return {'t': 'arr', 'legs': [ser(l) for l in x.legs], 'labels': list(x._labels), 'qtotal': [int(q) for q in x.qtotal], 'dtype': str(x.dtype),
                 'shape': [int(s) for s in x.shape], 'qdata': [[int(v) for v in x._qdata[i]] for i in order], 'data': [_nd(x._data[i]) for i in order],
-                'raw_order': [int(i) for i in np.argsort(order)], 'qdata_sorted': bool(x._qdata_sorted)}
+                'raw_order': [int(i) for i in np.argsort(order)], 'qdata_sorted': bool(x._qdata_sorted),
+                'block_dtypes': [str(x._data[i].dtype) for i in order], 'sanity': _sanity(x)}
     if isinstance(x, npc.LegPipe):
         return {'t': 'pipe', 'legs': [ser(l) for l in x.legs], 'qconj': int(x.qconj), 'sorted': bool(x.sorted), 'bunched': bool(x.bunched),
                 'mod': [int(m) for m in x.chinfo.mod], 'slices': [int(s) for s in x.slices], 'charges': np.asarray(x.charges, dtype=np.int64).tolist(),
@@ -547,14 +560,14 @@ def _prec_tol(dtypes, tol):
     return t
 
 
-def _compare(ctx, a, b, where, tol):
+def _compare(ctx, a, b, where, tol, nd_dtype=True):
     """serialised results of the two builds.  The dtype of result containers is NOT part of the property (DESIGN section 7:
     dtype promotion is outside every claim): dtype differences are counted in the notes, values are compared."""
     if isinstance(a, list) or isinstance(b, list):
         if not ctx.prove(isinstance(a, list) and isinstance(b, list) and len(a) == len(b), f'{where}: same number of results'):
             return
         for x, y in zip(a, b):
-            _compare(ctx, x, y, where, tol)
+            _compare(ctx, x, y, where, tol, nd_dtype)
         return
     ta, tb = a['t'], b['t']
     scalar = ('num', 'int', 'bool')
@@ -562,8 +575,7 @@ def _compare(ctx, a, b, where, tol):
         va = complex(a['re'], a['im']) if ta == 'num' else complex(a['v'])
         vb = complex(b['re'], b['im']) if tb == 'num' else complex(b['v'])
         da, db = a.get('dtype', 'int64'), b.get('dtype', 'int64')
-        if da != db:
-            ctx.note(f'dtype_differs:{where}')
+        ctx.prove(da == db and ta == tb, f'{where}: dtype of a scalar result')
         tl = _prec_tol([da, db], tol)
         if tl == 0.:
             ctx.prove(va == vb, f'{where}: integer values identical')
@@ -576,8 +588,8 @@ def _compare(ctx, a, b, where, tol):
     if t == 'nd':
         if not ctx.prove(a['shape'] == b['shape'], f'{where}: shape'):
             return
-        if a['dtype'] != b['dtype']:
-            ctx.note(f'dtype_differs:{where}')
+        if nd_dtype:
+            ctx.prove(a['dtype'] == b['dtype'], f'{where}: dtype of an ndarray result')
         x, y = _un_nd(a), _un_nd(b)
         tl = _prec_tol([a['dtype'], b['dtype']], tol)
         if tl == 0.:
@@ -595,11 +607,16 @@ def _compare(ctx, a, b, where, tol):
         ctx.prove(a['labels'] == b['labels'], f'{where}: labels')
         ctx.prove(a['qtotal'] == b['qtotal'], f'{where}: qtotal')
         ctx.prove(a['shape'] == b['shape'], f'{where}: shape')
-        if a['dtype'] != b['dtype']:
-            ctx.note(f'dtype_differs:{where}')
+        ctx.prove(a.get('sanity') == b.get('sanity'), f'{where}: test_sanity of the result passes / raises the same class in both builds')
+        if a['data'] or b['data']:
+            # results WITH stored blocks: declared dtype and the dtype of every stored block are part of the comparison
+            ctx.prove(a['dtype'] == b['dtype'], f'{where}: declared dtype of a result with stored blocks')
+            ctx.prove(a.get('block_dtypes') == b.get('block_dtypes'), f'{where}: dtypes of the stored blocks')
+        elif a['dtype'] != b['dtype']:
+            ctx.note(f'dtype_differs_without_stored_blocks:{where}')  # the only thing left open, see OUTSIDE
         _compare(ctx, a['legs'], b['legs'], where, tol)
         if ctx.prove(a['qdata'] == b['qdata'], f'{where}: block structure'):
-            _compare(ctx, a['data'], b['data'], where, tol)
+            _compare(ctx, a['data'], b['data'], where, tol, nd_dtype=False)
 
 
 def differential(ctx, prog, ops, args):
